@@ -117,7 +117,7 @@ impl Model for AccModel {
         self.bytes.clone()
     }
     fn key(&self, s: &AccSt) -> Self::Key {
-        (canon_acc(&s.acc), s.r.clone(), if self.refine { acc_sig(&s.acc) } else { 0 })
+        (canon_acc(&s.acc), s.r.clone(), (if self.refine { acc_sig(&s.acc) } else { 0 }) ^ s.acc.__verif_canonical_hash())
     }
     fn render_event(&self, e: &u8) -> String {
         format!("{:02X}", e)
@@ -210,7 +210,7 @@ impl Model for DecByteModel {
         self.bytes.clone()
     }
     fn key(&self, s: &DecSt) -> Self::Key {
-        (canon_gen(&s.gen), s.r.clone(), s.csi, s.last_esc, if self.refine { gen_sig(&s.gen) } else { 0 })
+        (canon_gen(&s.gen), s.r.clone(), s.csi, s.last_esc, (if self.refine { gen_sig(&s.gen) } else { 0 }) ^ s.gen.__verif_canonical_hash())
     }
     fn render_event(&self, e: &u8) -> String {
         format!("{:02X}", e)
@@ -408,7 +408,7 @@ impl Model for DecUnitModel {
         self.units.clone()
     }
     fn key(&self, s: &UnitSt) -> Self::Key {
-        (canon_gen(&s.gen), s.pending, s.last_lone_esc, gen_sig(&s.gen))
+        (canon_gen(&s.gen), s.pending, s.last_lone_esc, gen_sig(&s.gen) ^ s.gen.__verif_canonical_hash())
     }
     fn render_event(&self, e: &Unit) -> String {
         format!("{:?}", e)
